@@ -29,13 +29,67 @@ var c19Fields = []struct{ name, prim string }{
 	{"sz", "size"}, {"f32", "float32"}, {"f64", "float64"},
 }
 
+// union fields of the record, for !switch computed fields whose cases have different integer types
+type c19Union struct {
+	name  string
+	prims [2]string
+}
+
+var c19Unions = []c19Union{{"us", [2]string{"int16", "uint16"}}, {"ul", [2]string{"int32", "uint32"}}, {"um", [2]string{"int16", "int32"}}, {"uq", [2]string{"uint8", "int64"}}}
+
+// C19Sw: which case a union field holds, and the value.
+type C19Sw struct {
+	Case int   `json:"case"`
+	Val  int64 `json:"val"`
+}
+
 type C19Case struct {
 	Exprs  []*ref.Expr2     `json:"exprs"`
 	Values map[string]int64 `json:"values"` // field -> numerator; floats are value/4
 	Vec    []int64          `json:"vec"`
+	A16    []int64          `json:"a16,omitempty"` // elements of the int16 array field (3)
+	AU8    []int64          `json:"au8,omitempty"` // elements of the uint8 array field (3)
+	Sw     map[string]C19Sw `json:"sw,omitempty"`  // union field -> held case and value
 }
 
-const c19Rule = "static part (exhaustive, shard 0): every ordered pair of the 11 numeric primitives x {+,-,*,/,**} as a computed field `a op b`: yardl gives a verdict for each; verdict and declared result type are the same for (A op B) and (B op A); the declared C++ return type and the Python annotation agree; ** yields float64. dynamic part: 6-10 generated well-typed expressions per case plus two association probes `A op1 (B op2 C)` / `(A op1 B) op2 C` at equal precedence (depth <= 3; field access, integer and real literals, + - * / **, unary minus, casts, vector indexing, size(); explicit parentheses in every association pattern) over a record with one field per numeric primitive, evaluated on generated in-range operand values by the generated C++ and Python code; oracle: both equal the exact (rational) value of the expression whenever that value is defined by the documents and fits the declared type (integers exactly; reals within 1e-6 relative for float32 results, 1e-12 for float64; ** within 1e-9); an integer division with a non-integral quotient is judged too: against the common result when flooring and truncating agree, else C++ against Python. non-trivial = an expression with a right-nested group at equal precedence, mixed signedness/width, or a division; distinct = expression text + values"
+func (c C19Case) sw(name string) C19Sw {
+	if v, ok := c.Sw[name]; ok {
+		return v
+	}
+	return C19Sw{Case: 0, Val: 1}
+}
+
+// addUnionValues puts the value held by each union field into the evaluator's environment.
+func (c C19Case) addUnionValues(m map[string]*big.Rat) {
+	for _, u := range c19Unions {
+		m["#"+u.name] = big.NewRat(c.sw(u.name).Val, 1)
+	}
+}
+
+func (c C19Case) arrays() (a16, au8 []int64) {
+	a16, au8 = c.A16, c.AU8
+	if len(a16) != 3 {
+		a16 = []int64{1, 2, 3} // replay files written before the array fields existed
+	}
+	if len(au8) != 3 {
+		au8 = []int64{1, 2, 3}
+	}
+	return
+}
+
+func (c C19Case) vecMap(vec []*big.Rat) map[string][]*big.Rat {
+	a16, au8 := c.arrays()
+	m := map[string][]*big.Rat{"v": vec}
+	for _, x := range a16 {
+		m["a16"] = append(m["a16"], big.NewRat(x, 1))
+	}
+	for _, x := range au8 {
+		m["au8"] = append(m["au8"], big.NewRat(x, 1))
+	}
+	return m
+}
+
+const c19Rule = "static part (exhaustive, shard 0): every ordered pair of the 11 numeric primitives x {+,-,*,/,**} as a computed field `a op b`: yardl gives a verdict for each; verdict and declared result type are the same for (A op B) and (B op A); the declared C++ return type and the Python annotation agree; ** yields float64. dynamic part: 6-10 generated well-typed expressions per case plus two association probes `A op1 (B op2 C)` / `(A op1 B) op2 C` at equal precedence one probe `a[i] op a[j]` on elements of an int16 or uint8 array, and one `!switch` over a union of two integer types of different signedness/width whose cases return their variable (cases in either order) (depth <= 3; field access, integer and real literals, + - * / **, unary minus, casts, vector indexing, size(); explicit parentheses in every association pattern) over a record with one field per numeric primitive, evaluated on generated in-range operand values by the generated C++ and Python code; oracle: both equal the exact (rational) value of the expression whenever that value is defined by the documents and fits the declared type (integers exactly; reals within 1e-6 relative for float32 results, 1e-12 for float64; ** within 1e-9); an integer division with a non-integral quotient is judged too: against the common result when flooring and truncating agree, else C++ against Python. non-trivial = an expression with a right-nested group at equal precedence, mixed signedness/width, or a division; distinct = expression text + values"
 
 func c19Model(exprs []string) *model.Package {
 	rec := &model.Def{Kind: model.DRecord, Name: "Rec"}
@@ -43,7 +97,30 @@ func c19Model(exprs []string) *model.Package {
 		rec.Fields = append(rec.Fields, model.Field{Name: f.name, Type: model.Prim(f.prim)})
 	}
 	rec.Fields = append(rec.Fields, model.Field{Name: "v", Type: model.Vector(model.Prim("int32"))})
+	// arrays: their elements are fixed-width scalars in every target (numpy scalars in Python)
+	rec.Fields = append(rec.Fields, model.Field{Name: "a16", Type: &model.Type{Kind: model.KArray, Elem: model.Prim("int16"), HasDims: true, Dims: []model.Dim{{Name: "n"}}}})
+	rec.Fields = append(rec.Fields, model.Field{Name: "au8", Type: &model.Type{Kind: model.KArray, Elem: model.Prim("uint8"), HasDims: true, Dims: []model.Dim{{Name: "n"}}}})
+	for _, u := range c19Unions {
+		rec.Fields = append(rec.Fields, model.Field{Name: u.name, Type: &model.Type{Kind: model.KUnion, Cases: []*model.Type{model.Prim(u.prims[0]), model.Prim(u.prims[1])}, Tags: []string{u.prims[0], u.prims[1]}}})
+	}
 	for i, e := range exprs {
+		if strings.HasPrefix(e, "!switch ") {
+			// "!switch <union field> <case order>": every case returns its variable
+			f := strings.Fields(e)
+			var u c19Union
+			for _, x := range c19Unions {
+				if x.name == f[1] {
+					u = x
+				}
+			}
+			sw := &model.SwitchExpr{Target: u.name}
+			for _, ch := range f[2] {
+				k := int(ch - '0')
+				sw.Cases = append(sw.Cases, model.SwitchCase{Pattern: fmt.Sprintf("%s x%d", u.prims[k], k), Expr: fmt.Sprintf("x%d", k)})
+			}
+			rec.Computed = append(rec.Computed, model.Computed{Name: fmt.Sprintf("c%d", i), Switch: sw})
+			continue
+		}
 		rec.Computed = append(rec.Computed, model.Computed{Name: fmt.Sprintf("c%d", i), Expr: e})
 	}
 	proto := &model.Def{Kind: model.DProtocol, Name: "Proto0", Fields: []model.Field{{Name: "r", Type: model.Ref("Mdl", "Rec")}}}
@@ -181,6 +258,12 @@ func genExpr2(t *rapid.T, depth int) *ref.Expr2 {
 		if rapid.Bool().Draw(t, "sz") {
 			return &ref.Expr2{Kind: "cast", Name: "int32", L: &ref.Expr2{Kind: "size", Name: "v"}}
 		}
+		switch rapid.IntRange(0, 3).Draw(t, "idxOf") {
+		case 0:
+			return &ref.Expr2{Kind: "index", Name: "a16", Prim: "int16", Index: rapid.IntRange(0, 2).Draw(t, "idxA")}
+		case 1:
+			return &ref.Expr2{Kind: "index", Name: "au8", Prim: "uint8", Index: rapid.IntRange(0, 2).Draw(t, "idxB")}
+		}
 		return &ref.Expr2{Kind: "index", Name: "v", Prim: "int32", Index: rapid.IntRange(0, 2).Draw(t, "idx")}
 	case 4:
 		return &ref.Expr2{Kind: "neg", L: genExpr2(t, depth-1)}
@@ -223,6 +306,10 @@ func genC19(t *rapid.T) C19Case {
 	for i := 0; i < 3; i++ {
 		c.Vec = append(c.Vec, int64(rapid.IntRange(-20, 20).Draw(t, "vec")))
 	}
+	for i := 0; i < 3; i++ {
+		c.A16 = append(c.A16, int64(rapid.SampledFrom([]int{30000, -30000, 32767, -32768, 200, -7, 1, 0, 181}).Draw(t, "a16")))
+		c.AU8 = append(c.AU8, int64(rapid.SampledFrom([]int{255, 200, 128, 16, 2, 1, 0}).Draw(t, "au8")))
+	}
 	n := rapid.IntRange(6, 10).Draw(t, "nexpr")
 	for i := 0; i < n; i++ {
 		c.Exprs = append(c.Exprs, genExpr2(t, 3))
@@ -246,7 +333,42 @@ func genC19(t *rapid.T) C19Case {
 			c.Exprs = append(c.Exprs, &ref.Expr2{Kind: "bin", Op: o2, L: &ref.Expr2{Kind: "paren", L: &ref.Expr2{Kind: "bin", Op: o1, L: a, R: b}}, R: cc})
 		}
 	}
+	// what the union fields hold, and one !switch probe over one of them (cases in either order)
+	c.Sw = map[string]C19Sw{}
+	edge := map[string][]int64{"int16": {-5, -32768, 32767, 7}, "uint16": {40000, 65535, 3}, "int32": {-7, -2147483648, 2147483647}, "uint32": {4294967289, 3000000000, 12},
+		"uint8": {255, 200, 1}, "int64": {-9, 5000000000, -5000000000}}
+	for _, u := range c19Unions {
+		k := rapid.IntRange(0, 1).Draw(t, "swCase")
+		vals := edge[u.prims[k]]
+		c.Sw[u.name] = C19Sw{Case: k, Val: vals[rapid.IntRange(0, len(vals)-1).Draw(t, "swVal")]}
+	}
+	{
+		u := c19Unions[rapid.IntRange(0, len(c19Unions)-1).Draw(t, "swField")]
+		c.Exprs = append(c.Exprs, &ref.Expr2{Kind: "switch", Name: u.name, Lit: rapid.SampledFrom([]string{"01", "10"}).Draw(t, "swOrder")})
+	}
+	// one probe on array elements: `a[i] op a[j]` (the operands are fixed-width scalars, the
+	// result is declared wider)
+	{
+		arr := rapid.SampledFrom([]string{"a16", "au8"}).Draw(t, "elArr")
+		prim := map[string]string{"a16": "int16", "au8": "uint8"}[arr]
+		el := func(label string) *ref.Expr2 {
+			return &ref.Expr2{Kind: "index", Name: arr, Prim: prim, Index: rapid.IntRange(0, 2).Draw(t, label)}
+		}
+		op := rapid.SampledFrom([]string{"+", "-", "*"}).Draw(t, "elOp")
+		c.Exprs = append(c.Exprs, &ref.Expr2{Kind: "bin", Op: op, L: el("elI"), R: el("elJ")})
+	}
 	return c
+}
+
+// intRange: smallest and largest value of an integer primitive.
+func intRange(prim string) (lo, hi *big.Int) {
+	bits := uint(model.IntBits(prim))
+	if model.IsSignedInt(prim) {
+		hi = new(big.Int).Sub(new(big.Int).Lsh(big.NewInt(1), bits-1), big.NewInt(1))
+		lo = new(big.Int).Neg(new(big.Int).Lsh(big.NewInt(1), bits-1))
+		return
+	}
+	return big.NewInt(0), new(big.Int).Sub(new(big.Int).Lsh(big.NewInt(1), bits), big.NewInt(1))
 }
 
 func parseCf(s string) (kind string, i *big.Int, f float64, err string) {
@@ -284,6 +406,7 @@ func checkC19(c C19Case) *Fail {
 			preFields[f.name] = big.NewRat(c.Values[f.name], 1)
 		}
 	}
+	c.addUnionValues(preFields)
 	var preVec []*big.Rat
 	for _, x := range c.Vec {
 		preVec = append(preVec, big.NewRat(x, 1))
@@ -293,11 +416,11 @@ func checkC19(c C19Case) *Fail {
 		// evaluations are outside "in-range operands" and are not run
 		// (more generally: an evaluation the documents do not define may be undefined behaviour in
 		// C++, e.g. a negative real converted to an unsigned integer and then used as a divisor)
-		if r := e.Eval(preFields, map[string][]*big.Rat{"v": preVec}); r.Undefined != "" {
+		if r := e.Eval(preFields, c.vecMap(preVec)); r.Undefined != "" {
 			// an inexact integer division is still run when the expression is defined under both
 			// candidate rounding rules (the targets must then agree with each other, see below)
-			rf := e.EvalRounded("floor", preFields, map[string][]*big.Rat{"v": preVec})
-			rt := e.EvalRounded("trunc", preFields, map[string][]*big.Rat{"v": preVec})
+			rf := e.EvalRounded("floor", preFields, c.vecMap(preVec))
+			rt := e.EvalRounded("trunc", preFields, c.vecMap(preVec))
 			if r.Undefined != ref.IntDivUndefined || rf.Undefined != "" || rt.Undefined != "" || rf.IsFloat || rt.IsFloat {
 				rec.Class("skipped:" + strings.SplitN(r.Undefined, " (", 2)[0])
 				continue
@@ -359,6 +482,27 @@ func checkC19(c C19Case) *Fail {
 		vec = append(vec, big.NewRat(x, 1))
 	}
 	recV.Items = append(recV.Items, vecV)
+	a16, au8 := c.arrays()
+	arr16 := &value.Value{K: value.Array, Shape: []uint64{3}}
+	for _, x := range a16 {
+		arr16.Items = append(arr16.Items, &value.Value{K: value.Int, I: x})
+	}
+	arrU8 := &value.Value{K: value.Array, Shape: []uint64{3}}
+	for _, x := range au8 {
+		arrU8.Items = append(arrU8.Items, &value.Value{K: value.Uint, U: uint64(x)})
+	}
+	recV.Items = append(recV.Items, arr16, arrU8)
+	c.addUnionValues(fields)
+	for _, u := range c19Unions {
+		h := c.sw(u.name)
+		var inner *value.Value
+		if model.IsSignedInt(u.prims[h.Case]) {
+			inner = &value.Value{K: value.Int, I: h.Val}
+		} else {
+			inner = &value.Value{K: value.Uint, U: uint64(h.Val)}
+		}
+		recV.Items = append(recV.Items, &value.Value{K: value.Union, Case: h.Case, Items: []*value.Value{inner}})
+	}
 	proto := p.Find("Proto0")
 	in := filepath.Join(b.Root, "rec.bin")
 	os.WriteFile(in, ref.EncodeProtocol(b.Env, proto, b.Schemas["Proto0"], []value.StepValues{{Value: recV}}), 0o644)
@@ -393,7 +537,7 @@ func checkC19(c C19Case) *Fail {
 		return failf("rt-harness", "cf drivers returned %d / %d values for %d expressions", len(pyVals), len(cppVals), len(kept))
 	}
 	for i, e := range kept {
-		want := e.Eval(fields, map[string][]*big.Rat{"v": vec})
+		want := e.Eval(fields, c.vecMap(vec))
 		decl := declared[i]
 		ctx := func() string {
 			return fmt.Sprintf("computed field `%s` (read as %s), declared %s, on %v v=%v", e.Text(), e.Tree(), decl, c.Values, c.Vec)
@@ -402,8 +546,8 @@ func checkC19(c C19Case) *Fail {
 			// inexact integer division. Where flooring and truncating give the same result
 			// (non-negative quotients) that result is the value; otherwise the documents leave the
 			// rounding open, but the targets still have to agree with each other.
-			wf := e.EvalRounded("floor", fields, map[string][]*big.Rat{"v": vec})
-			wt := e.EvalRounded("trunc", fields, map[string][]*big.Rat{"v": vec})
+			wf := e.EvalRounded("floor", fields, c.vecMap(vec))
+			wt := e.EvalRounded("trunc", fields, c.vecMap(vec))
 			if wf.Undefined != "" || wt.Undefined != "" || wf.IsFloat || wt.IsFloat || !model.IsIntPrim(decl) || !ref.FitsDeclared(wf, decl) || !ref.FitsDeclared(wt, decl) {
 				rec.Class("undefined:" + strings.SplitN(want.Undefined, " (", 2)[0])
 				continue
@@ -438,6 +582,21 @@ func checkC19(c C19Case) *Fail {
 		if want.Undefined != "" {
 			rec.Class("undefined:" + strings.SplitN(want.Undefined, " (", 2)[0])
 			continue
+		}
+		if e.Kind == "switch" && decl != "" {
+			// every case returns its own variable, so the result type has to hold every value of
+			// every case type (whatever the order of the cases)
+			for _, u := range c19Unions {
+				if u.name != e.Name {
+					continue
+				}
+				for _, cp := range u.prims {
+					lo, hi := intRange(cp)
+					if !ref.FitsDeclared(ref.EvalResult{Val: new(big.Rat).SetInt(lo)}, decl) || !ref.FitsDeclared(ref.EvalResult{Val: new(big.Rat).SetInt(hi)}, decl) {
+						return failf("c19", "the !switch over %s (cases %s and %s, written in order %s) is declared %s, which cannot hold every value of case type %s\n%s", u.name, u.prims[0], u.prims[1], e.Lit, decl, cp, ctx())
+					}
+				}
+			}
 		}
 		if decl == "" || !ref.FitsDeclared(want, decl) {
 			rec.Class("out-of-range-for-declared-type")
